@@ -222,7 +222,7 @@ ACCS = {
 }
 
 
-def gen_conv_case(rng, family=None, safe_bias=0.6):
+def gen_conv_case(rng, family=None, safe_bias=0.75):
     fam = family or rng.choice(["alu", "alu", "mm_i32", "mm_i8", "gemm_i32"])
     spec = ACCS[fam]
     t = rng.choice([0, 1, 1, 2, 3])
@@ -394,7 +394,7 @@ def correspondence(ctx):
     groups = []
     # layout resolution
     cases, meta = [], []
-    for i in range(ctx.n(120, 1500)):
+    for i in range(ctx.n(80, 400)):
         n, bounds, ops = gen_resolve_op(rng)
         try:
             strides, _ = impl_resolve(n, bounds, ops)
@@ -411,7 +411,7 @@ def correspondence(ctx):
 
     # conversion
     conv, convm, fin, finm, okb, okbm, strm, strmm = [], [], [], [], [], [], [], []
-    for i in range(ctx.n(220, 3000)):
+    for i in range(ctx.n(160, 800)):
         case = gen_conv_case(rng)
         raw, err, final, info = impl_convert(case)
         ops = coqlist(coq_operand(case, oi, info[oi]) for oi in range(len(info)))
@@ -494,6 +494,23 @@ def l2_alu_case(spec):
     klass = classify_alu(spec, types, maps, bounds)
     DartLayoutResolutionPass().apply(H.xctx(), mod)
     ap = [o for o in mod.walk() if o.name == "dart.access_pattern"][0]
+    # the property at the resolution stage: the emitted strides reproduce layout∘schedule − constant on the box
+    from snaxc.ir.dart.affine_transform import AffineTransform
+    early = []
+    for oi, pm in enumerate(ap.patterns.data):
+        tr = AffineTransform.from_affine_map(pm.data)
+        st = [int(x) for x in tr.A[0]]
+        lay = types[oi].get_affine_map_in_bytes()
+        f = lambda x: lay.eval(list(maps[oi].eval(list(x), [])), [])[0]   # noqa: E731
+        f0 = f([0] * n)
+        for x in itertools.product(*[range(b) for b in bounds]):
+            if sum(a * b for a, b in zip(st, x)) + int(tr.b[0]) != f(x) - f0:
+                early.append({"what": "resolved-strides", "operand": oi, "strides": st, "point": list(x),
+                              "want": f(x) - f0, "got": sum(a * b for a, b in zip(st, x)),
+                              "klass": "not_linear_on_box" if _F0[oi][1] == "not_linear_on_box" else None})
+                break
+    if early:
+        return early, next((k for k in klass if k), None), None
     with warnings.catch_warnings():
         warnings.simplefilter("ignore")
         try:
@@ -520,6 +537,19 @@ def l2_alu_case(spec):
                           "schedule_steps": len(wb), "streamer": flat_g[:16], "elements": flat_w[:16]})
     for p in probs:
         p["klass"] = klass[p["operand"]]
+        if p["klass"] == "static_layout_offset":
+            # the known finding is the dropped constant only: shifted by it, the streams must agree
+            f0, other = _F0[p["operand"]]
+            oi = p["operand"]
+            pt = sr.stride_patterns.data[oi]
+            got = nest_words([x.data for x in pt.upper_bounds], [x.data for x in pt.temporal_strides],
+                             [x.data for x in pt.spatial_strides], [4])
+            want = expected_steps(types[oi], maps[oi], bounds, 1, [True] * n, ELS[ops[oi]["el"]])
+            g = [b for w in got for b in bytes_of(w, 8)]
+            w_ = [b - f0 for a in want for b in bytes_of(a, ELS[ops[oi]["el"]])]
+            if g != w_:
+                p["klass"] = other
+                p["shifted_by_constant_still_differs"] = True
     return probs, next((k for k in klass if k), None), None
 
 
@@ -535,15 +565,18 @@ def classify_alu(spec, types, maps, bounds):
         f0 = f([0] * n)
         c = [f([1 if j == i else 0 for j in range(n)]) - f0 if bounds[i] > 1 else 0 for i in range(n)]
         dims = list(reversed([(c[i], bounds[i]) for i in range(n)]))
-        if f0 != 0:
-            out.append("static_layout_offset")
-        elif any(f(x) != f0 + sum(ci * xi for ci, xi in zip(c, x)) for x in box):
-            out.append("not_linear_on_box")
+        if any(f(x) != f0 + sum(ci * xi for ci, xi in zip(c, x)) for x in box):
+            other = "not_linear_on_box"
         elif not convert_okb(ELS[o["el"]], [4], dims):
-            out.append("not_convert_safe")
+            other = "not_convert_safe"
         else:
-            out.append(None)
+            other = None
+        _F0[oi] = (f0, other)
+        out.append("static_layout_offset" if f0 != 0 else other)
     return out
+
+
+_F0 = {}
 
 
 def gen_l2_alu(rng):
@@ -670,7 +703,7 @@ def _reorder(steps, ub, bounds):
 def search(ctx, deep=False):
     rng = ctx.rng
     fails = []
-    for i in range(ctx.n(150, 2000) * (3 if deep else 1)):
+    for i in range(ctx.n(150, 800) * (3 if deep else 1)):
         spec = gen_l2_alu(rng)
         try:
             probs, klass, note = l2_alu_case(spec)
